@@ -1557,7 +1557,15 @@ fn run_t<T: Elem>(case: &Case, free_run: bool) -> RunOut {
     if let Some(s) = &sched {
         let wm = Arc::clone(&w);
         if w.shared.iter().flatten().any(|sb| sb.def.entry == Entry::Immut) && case.prop == "C15" {
+            // The comparison costs O(elements) and there is one scheduling point per chunk at every nesting level, so for
+            // long buffers it runs at every (elements/2048)-th point only (a pure function of the step counter); natively the
+            // shared input is also mapped read-only for the whole run, so a store faults at once whatever the stride.
+            let total: usize = w.shared.iter().flatten().filter(|sb| sb.def.entry == Entry::Immut).map(|sb| sb.initial.len()).sum();
+            let stride = (total / 2048).max(1) as u64;
             s.add_monitor(Box::new(move |step| {
+                if step % stride != 0 {
+                    return None;
+                }
                 for sb in wm.shared.iter().flatten() {
                     if sb.def.entry == Entry::Immut && !bits_eq(sb.data.as_ref(), &sb.initial) {
                         return Some(("c15.input-modified-during".to_string(), format!("shared immutable input differs from its pristine copy at scheduling step {}", step)));
